@@ -69,8 +69,55 @@ func normRat(n, d *big.Int) any {
 	return c11.NormRat(new(big.Rat).SetFrac(n, d))
 }
 
+// randBits: a random positive integer with exactly k bits.
+func randBits(r *rand.Rand, k uint) *big.Int {
+	z := new(big.Int).Rand(r, pow2(k-1))
+	return z.Add(z, pow2(k-1))
+}
+
+// GenRatForFloat: non-integer rationals whose numerator and/or denominator do not fit
+// in 53 bits: word-sized parts in (2^53, 2^63), parts just above 2^63, and huge
+// parts.  Converting the parts separately and dividing (double rounding) is off by
+// one ulp on a good share of these; only one correctly rounded division is right.
+func GenRatForFloat(r *rand.Rand) any {
+	var n, d *big.Int
+	wide := func() *big.Int { return randBits(r, uint(54+r.Intn(10))) } // (2^53, 2^63)
+	switch r.Intn(8) {
+	case 0: // wide numerator, small denominator
+		n, d = wide(), big.NewInt(int64(2+r.Intn(1000000)))
+	case 1: // small numerator, wide denominator
+		n, d = big.NewInt(int64(1+r.Intn(1000000))), wide()
+	case 2, 3: // both wide
+		n, d = wide(), wide()
+	case 4: // any two int64-sized parts
+		n, d = randBits(r, uint(1+r.Intn(63))), randBits(r, uint(1+r.Intn(63)))
+	case 5: // one part just above 2^63
+		n, d = randBits(r, uint(64+r.Intn(3))), randBits(r, uint(40+r.Intn(24)))
+		if r.Intn(2) == 0 {
+			n, d = d, n
+		}
+	case 6: // wide numerator over a power of two (ties after the first rounding)
+		n, d = wide(), pow2(uint(1+r.Intn(80)))
+		n.SetBit(n, 0, 1)
+	default: // huge parts, quotient of moderate size
+		k := uint(200 + r.Intn(1000))
+		n, d = randBits(r, k+uint(r.Intn(60))), randBits(r, k)
+	}
+	if r.Intn(2) == 0 {
+		n.Neg(n)
+	}
+	q := new(big.Rat).SetFrac(n, d)
+	if q.IsInt() {
+		q.Add(q, big.NewRat(1, 3))
+	}
+	return c11.NormRat(q)
+}
+
 // GenExactForFloat: exact numbers whose conversion is delicate.
 func GenExactForFloat(r *rand.Rand) any {
+	if r.Intn(3) == 0 {
+		return GenRatForFloat(r)
+	}
 	sgn := func(z *big.Int) *big.Int {
 		if r.Intn(2) == 0 {
 			return new(big.Int).Neg(z)
@@ -182,12 +229,25 @@ func run(c *reg.Ctx) {
 			x.emit(cmd, args, kindsBucket(args))
 		case k < 14:
 			x.emit(unary[r.Intn(len(unary))], []any{GenFloat(r)}, "f")
-		case k < 17:
+		case k < 16:
 			a := GenExactForFloat(r)
 			if r.Intn(6) == 0 {
 				a = GenFloat(r)
 			}
 			x.emit("inexact-num", []any{a}, kinds([]any{a}))
+		case k < 17: // wide rationals through the conversion alone ...
+			x.emit("inexact-num", []any{GenRatForFloat(r)}, "wide-rat")
+		case k < 18: // ... and through mixed arithmetic, where only the float argument forces the conversion
+			q := GenRatForFloat(r)
+			f := []float64{0, 1, -1, 0.5, 3, 1e-300, math.Copysign(0, -1)}[r.Intn(7)]
+			if r.Intn(3) == 0 {
+				f = GenFloat(r)
+			}
+			args := []any{q, f}
+			if r.Intn(2) == 0 {
+				args = []any{f, q}
+			}
+			x.emit(arith[r.Intn(4)], args, "wide-rat")
 		case k < 19:
 			x.emit("exact-num", []any{GenFloat(r)}, "f")
 		default: // min / max with floats (Go's math.Max/Min special cases)
@@ -260,6 +320,9 @@ func (x *runner) fixed() {
 		{"inexact-num", []any{c11.NormRat(new(big.Rat).SetFrac(big.NewInt(1), pow2(1075)))}},
 		{"inexact-num", []any{c11.NormRat(new(big.Rat).SetFrac(big.NewInt(3), pow2(1075)))}},
 		{"inexact-num", []any{c11.NormRat(new(big.Rat).SetFrac(big.NewInt(-1), addi(pow2(1075), -1)))}},
+		{"inexact-num", []any{big.NewRat(-30056887691420949, 730996)}}, {"+", []any{big.NewRat(-30056887691420949, 730996), 0.0}},
+		{"*", []any{1.0, big.NewRat(9007199254740993, 5)}}, {"/", []any{big.NewRat(9223372036854775807, 9007199254740993), 1.0}},
+		{"-", []any{big.NewRat(3, 9223372036854775807), 0.0}},
 		{"exact-num", []any{0.125}}, {"exact-num", []any{0.1}}, {"exact-num", []any{nz}}, {"exact-num", []any{2.0}},
 		{"exact-num", []any{1e30}}, {"exact-num", []any{math.SmallestNonzeroFloat64}}, {"exact-num", []any{math.MaxFloat64}},
 		{"exact-num", []any{9223372036854775808.0}}, {"exact-num", []any{-9223372036854775808.0}},
